@@ -31,6 +31,10 @@ cli-asan)
   # thorough-tier ASan stages, which re-run a process-level workload against this binary
   (cd "$REPO" && RUSTFLAGS="-Zsanitizer=address -Cforce-frame-pointers=yes" CARGO_TARGET_DIR="$T/cli-asan$SFX" cargo +nightly build --release --features cli --target x86_64-unknown-linux-gnu --offline -q 2> "$T/.cliasan-build.log") || { grep -E "^error" -A12 "$T/.cliasan-build.log" | head -60 >&2; echo "build.sh: copia CLI (ASan build) does not compile" >&2; exit 1; }
   test -x "$T/cli-asan$SFX/x86_64-unknown-linux-gnu/release/copia" ;;
+cli-cov)
+  # source-coverage build (nightly, -Cinstrument-coverage): used only by bin/coverage.sh
+  (cd "$REPO" && RUSTFLAGS="-Cinstrument-coverage" CARGO_TARGET_DIR="$T/cli-cov$SFX" cargo +nightly build --release --features cli --offline -q 2> "$T/.clicov-build.log") || { grep -E "^error" -A12 "$T/.clicov-build.log" | head -60 >&2; exit 1; }
+  test -x "$T/cli-cov$SFX/release/copia" ;;
 cli-vg)
   # valgrind 3.19 cannot execute what -C target-cpu=native (the repository's .cargo/config.toml) emits on this
   # machine: the memcheck stages use a second release build of the same sources for the baseline x86-64-v2 ISA
